@@ -121,6 +121,9 @@ class UniqueTimes(ModelObject):
     def pv_len(self, cx):
         return z3.Int("n_release_times")
 
+    def pv_for(self, interp, st, env, mod):
+        return _append_loop(self, interp, st, env, mod)
+
     def pv_comprehension(self, interp, node, env, mod):
         import ast
 
@@ -137,6 +140,29 @@ class UniqueTimes(ModelObject):
         return MappedTimes(me, f)
 
 
+def _append_loop(times, interp, st, env, mod):
+    """``for t in times: L.append(expr(t))`` with L an empty list: the loop form of ``L = [expr(t) for t in times]``."""
+    import ast
+
+    body = st.body
+    ok = (len(body) == 1 and isinstance(body[0], ast.Expr) and isinstance(body[0].value, ast.Call) and isinstance(body[0].value.func, ast.Attribute)
+          and body[0].value.func.attr == "append" and isinstance(body[0].value.func.value, ast.Name) and len(body[0].value.args) == 1
+          and isinstance(st.target, ast.Name) and not st.orelse)
+    if not ok:
+        raise Unsupported("loop over the release times other than `for t in times: L.append(f(t))`")
+    lname = body[0].value.func.value.id
+    if not (isinstance(env.get(lname), list) and len(env[lname]) == 0):
+        raise Unsupported("append loop over the release times into a non-empty list")
+    arg, tname = body[0].value.args[0], st.target.id
+
+    def f(t):
+        e2 = dict(env)
+        e2[tname] = t
+        return interp.eval(arg, e2, mod)
+
+    env[lname] = MappedTimes(times, f)
+
+
 class MappedTimes(ModelObject):
     def __init__(self, times, f):
         self.times, self.f = times, f
@@ -149,8 +175,12 @@ class GroupBy(ModelObject):
     def pv_comprehension(self, interp, node, env, mod):
         import ast
 
-        if ast.unparse(node.elt) != f"{node.generators[0].target.id}[1]" or node.generators[0].ifs:
-            raise Unsupported("comprehension over groupby")
+        gen = node.generators[0]
+        tgt = gen.target
+        second = (isinstance(tgt, ast.Name) and ast.unparse(node.elt) == f"{tgt.id}[1]") or (
+            isinstance(tgt, ast.Tuple) and len(tgt.elts) == 2 and isinstance(tgt.elts[1], ast.Name) and isinstance(node.elt, ast.Name) and node.elt.id == tgt.elts[1].id)
+        if not second or gen.ifs or len(node.generators) != 1:
+            raise Unsupported("comprehension over groupby other than the list of the groups' frames")
         return GroupSeq(self.table, "ascending-time" if self.sort is True else "first-appearance")
 
 
